@@ -11,13 +11,14 @@ import (
 )
 
 // SimDial, if set, replaces the kernel dialer used by Dial so that a
-// deterministic simulator can provide the transport.
-var SimDial func(ctx context.Context, addr string) (net.Conn, error)
+// deterministic simulator can provide the transport. It is handed the network
+// ("unix" or "tcp") Dial chose for the address.
+var SimDial func(ctx context.Context, network, addr string) (net.Conn, error)
 
-func simDial(ctx context.Context, addr string) (net.Conn, bool, error) {
+func simDial(ctx context.Context, network, addr string) (net.Conn, bool, error) {
 	if SimDial == nil {
 		return nil, false, nil
 	}
-	c, err := SimDial(ctx, addr)
+	c, err := SimDial(ctx, network, addr)
 	return c, true, err
 }
